@@ -165,7 +165,7 @@ def _nonempty(X: ast.AST, p: Any, sym: Sym, raw: str) -> bool:
     # slice of the input driven by range(0, len(raw), step)
     if isinstance(X, ast.Subscript) and isinstance(X.slice, ast.Slice) and X.slice.lower is not None and '__iter__(range(0, len(%s)' % raw in norm(X.slice.lower):
         return True
-    facts = p.facts()
+    facts = list(allfacts(p).items())
     for a, pol in facts:
         a2 = a.replace(' ', '')
         if pol and a2 in ('len(%s)>0' % t, t, 'len(%s)!=0' % t, 'len(%s)>=1' % t):
@@ -289,7 +289,7 @@ def body_or_chunks_check(ch: Checker, rule: str) -> None:
             continue
         rv = norm(Sym(p).value(last[1].value, last[0]))
         res = 'chunks' if rv.endswith('to_chunks(self.body)') else ('body' if rv == 'self.body' else rv)
-        facts = p.facts()
+        facts = list(allfacts(p).items())
         for body in ('None', 'empty', 'nonempty'):
             for chunked in (True, False):
                 ok = True
@@ -345,17 +345,34 @@ def _is_te_compare(e: ast.AST, key: Optional[str]) -> bool:
     return False
 
 
+def _lowered_names(c: ast.AST) -> bool:
+    """[k.lower() for k in headers...] (list / set / generator), k being the header NAME"""
+    if isinstance(c, (ast.SetComp, ast.ListComp, ast.GeneratorExp)) and len(c.generators) == 1 and not c.generators[0].ifs:
+        key = _key_var(c.generators[0].target, c.generators[0].iter)
+        return key is not None and isinstance(c.elt, ast.Call) and isinstance(c.elt.func, ast.Attribute) and c.elt.func.attr == 'lower' and not c.elt.args and norm(c.elt.func.value) == key
+    return False
+
+
+def _is_te_const(e: ast.AST) -> bool:
+    return isinstance(e, ast.Constant) and e.value == b'transfer-encoding'
+
+
 def _is_te_scan(e: ast.AST) -> bool:
     """an expression that is true iff some header NAME equals transfer-encoding case-insensitively:
-    any(k.lower() == b'transfer-encoding' for k in headers...) or b'transfer-encoding' in {k.lower() for k in headers...}"""
+    any(k.lower() == TE for k in headers...), any(n == TE for n in [k.lower() for k in headers...]), TE in {k.lower() for k in headers...}"""
     if isinstance(e, ast.Call) and attr_chain(e.func) == 'any' and len(e.args) == 1 and isinstance(e.args[0], (ast.GeneratorExp, ast.ListComp)):
         ge = e.args[0]
-        return len(ge.generators) == 1 and not ge.generators[0].ifs and _is_te_compare(ge.elt, _key_var(ge.generators[0].target, ge.generators[0].iter))
-    if isinstance(e, ast.Compare) and len(e.ops) == 1 and isinstance(e.ops[0], ast.In) and isinstance(e.left, ast.Constant) and e.left.value == b'transfer-encoding':
-        c = e.comparators[0]
-        if isinstance(c, (ast.SetComp, ast.ListComp, ast.GeneratorExp)) and len(c.generators) == 1 and not c.generators[0].ifs:
-            key = _key_var(c.generators[0].target, c.generators[0].iter)
-            return key is not None and isinstance(c.elt, ast.Call) and isinstance(c.elt.func, ast.Attribute) and c.elt.func.attr == 'lower' and norm(c.elt.func.value) == key
+        if len(ge.generators) != 1 or ge.generators[0].ifs:
+            return False
+        gen = ge.generators[0]
+        if _is_te_compare(ge.elt, _key_var(gen.target, gen.iter)):
+            return True
+        if _lowered_names(gen.iter) and isinstance(gen.target, ast.Name) and isinstance(ge.elt, ast.Compare) and len(ge.elt.ops) == 1 and isinstance(ge.elt.ops[0], ast.Eq):
+            sides = [ge.elt.left, ge.elt.comparators[0]]
+            return any(_is_te_const(x) for x in sides) and any(isinstance(x, ast.Name) and x.id == gen.target.id for x in sides)
+        return False
+    if isinstance(e, ast.Compare) and len(e.ops) == 1 and isinstance(e.ops[0], ast.In) and _is_te_const(e.left):
+        return _lowered_names(e.comparators[0])
     return False
 
 
